@@ -36,15 +36,20 @@ structure LInv (s : Script) (c : Cfg) : Prop where
   csNone : ∀ l, FirstNone s l → l < c.P → ∀ t b n, (c.th t).pc.inCS = true → (c.th t).pc.ticket = some (b, n) →
               l ≤ b + (c.th t).pc.acc.length
   idleNone : ∀ l, FirstNone s l → l < c.P → (∀ t, (c.th t).pc.inCS = false) → l ≤ c.Y
-  /-- every filled position below `yielded` has been handed out -/
-  noLoss : ∀ p, p < c.Y → IsSome (s p) → Delivered c p
+  /-- every position below `yielded` that the wrapped iterator filled before it ended has been handed out -/
+  noLoss : ∀ p, p < c.Y → NoNoneBefore s (p + 1) → Delivered c p
+  /-- whatever a thread has accumulated was produced before the iterator ended … -/
+  accNN : ∀ t r b acc, ((c.th t).pc = .cs r b acc ∨ (c.th t).pc = .ins r b acc ∨ (c.th t).pc = .pub r b acc ∨ (c.th t).pc = .setC r b acc) →
+            NoNoneBefore s (b + acc.length)
+  /-- … and so was everything that has been handed out -/
+  delOk : ∀ p, Delivered c p → NoNoneBefore s (p + 1)
 
 theorem delivered_mono_of_outs {c c' : Cfg} (h : ∀ t, ∀ o ∈ (c.th t).outs, o ∈ (c'.th t).outs) (p : Nat) :
     Delivered c p → Delivered c' p := by
   rintro ⟨t, o, ho, hp⟩; exact ⟨t, o, h t o ho, hp⟩
 
 /-- generic update lemma (same shape as `inv_update`): the moving thread `t` gets state `x'` -/
-theorem linv_update {s : Script} (hf : Fused s) {c : Cfg} (hi : Inv s c) (h : LInv s c) (t : Nat) (x' : Thread)
+theorem linv_update {s : Script} {c : Cfg} (hi : Inv s c) (h : LInv s c) (t : Nat) (x' : Thread)
     (R' Y' : Nat) (C' : Bool) (P' : Nat) (hY : c.Y ≤ Y')
     (houts : ∀ o ∈ (c.th t).outs, o ∈ x'.outs)
     -- facts about `t` in the critical section afterwards
@@ -52,7 +57,9 @@ theorem linv_update {s : Script} (hf : Fused s) {c : Cfg} (hi : Inv s c) (h : LI
     -- the other threads: unchanged, and whoever of them is in the critical section keeps P
     (hothP : ∀ u, u ≠ t → (c.th u).pc.inCS = true → P' = c.P)
     (hidle : ∀ l, FirstNone s l → l < P' → x'.pc.inCS = false → (∀ u, u ≠ t → (c.th u).pc.inCS = false) → l ≤ Y')
-    (hnew : ∀ p, c.Y ≤ p → p < Y' → IsSome (s p) → ∃ o ∈ x'.outs, p ∈ o.pos) :
+    (hnew : ∀ p, c.Y ≤ p → p < Y' → NoNoneBefore s (p + 1) → ∃ o ∈ x'.outs, p ∈ o.pos)
+    (hacc : ∀ r b acc, (x'.pc = .cs r b acc ∨ x'.pc = .ins r b acc ∨ x'.pc = .pub r b acc ∨ x'.pc = .setC r b acc) → NoNoneBefore s (b + acc.length))
+    (hdel : ∀ o ∈ x'.outs, o ∈ (c.th t).outs ∨ ∀ p ∈ o.pos, NoNoneBefore s (p + 1)) :
     LInv s (setTh { c with R := R', Y := Y', C := C', P := P' } t x') := by
   constructor
   · intro l hl hlP u b n
@@ -76,20 +83,56 @@ theorem linv_update {s : Script} (hf : Fused s) {c : Cfg} (hi : Inv s c) (h : LI
       · exact ⟨u, o, by simpa [hu] using ho, hpo⟩
     · obtain ⟨o, ho, hpo⟩ := hnew p (by omega) hp hsome
       exact ⟨t, o, by simpa using ho, hpo⟩
+  · intro u r b acc
+    by_cases hu : u = t
+    · subst hu; simpa using hacc r b acc
+    · simpa [hu] using h.accNN u r b acc
+  · rintro p ⟨u, o, ho, hpo⟩
+    by_cases hu : u = t
+    · subst hu
+      simp at ho
+      rcases hdel o ho with h1 | h1
+      · exact h.delOk p ⟨u, o, h1, hpo⟩
+      · exact h1 p hpo
+    · simp [hu] at ho
+      exact h.delOk p ⟨u, o, ho, hpo⟩
 
 theorem single_len {r : Req} (h : r.isSingle = true) : r.len = 1 := by
   cases r <;> simp_all [Req.isSingle, Req.len]
 
-theorem step_linv {s : Script} (hf : Fused s) (hnp : NoPanic s) {c : Cfg} (hi : Inv s c) (h : LInv s c) (hW : c.R < W)
-    (t : Nat) : LInv s (step s t c) := by
+theorem nnb_le {s : Script} {p q : Nat} (hpq : p ≤ q) (h : NoNoneBefore s q) : NoNoneBefore s p :=
+  fun i hi => h i (by omega)
+
+theorem step_linv {s : Script} (hnp : NoPanic s) {c : Cfg} (hi : Inv s c) (h : LInv s c) (hW : c.R < W)
+    (hnd : ∀ t b n, (c.th t).pc ≠ .unw b n) (t : Nat) : LInv s (step s t c) := by
   unfold step
   generalize hx : c.th t = x
   obtain ⟨pc, todo, outs⟩ := x
+  have hdelSame : ∀ (x' : Thread), (∀ o ∈ x'.outs, o ∈ outs ∨ o.pos = []) →
+      ∀ o ∈ x'.outs, o ∈ (c.th t).outs ∨ ∀ p ∈ o.pos, NoNoneBefore s (p + 1) := by
+    intro x' hx' o ho
+    rcases hx' o ho with h1 | h1
+    · exact Or.inl (by simpa [hx] using h1)
+    · exact Or.inr (by simp [h1])
+  have retDel : ∀ (x0 : Thread) r o, x0.outs = outs → o.pos = [] → ∀ o' ∈ (ret x0 r o).outs, o' ∈ outs ∨ o'.pos = [] := by
+    intro x0 r o h0 hp o' ho'
+    simp [ret_outs, h0] at ho'
+    rcases ho' with h1 | h1
+    · exact Or.inl h1
+    · exact Or.inr (by rw [h1]; exact hp)
+  have retAcc : ∀ (x0 : Thread) r o r' b acc, ((ret x0 r o).pc = .cs r' b acc ∨ (ret x0 r o).pc = .ins r' b acc ∨ (ret x0 r o).pc = .pub r' b acc ∨ (ret x0 r o).pc = .setC r' b acc) →
+      NoNoneBefore s (b + acc.length) := by
+    intro x0 r o r' b acc he; rcases ret_pc x0 r o with h1 | h1 <;> simp [h1] at he
+  have sameDel : ∀ (x' : Thread), x'.outs = outs → ∀ o ∈ x'.outs, o ∈ outs ∨ o.pos = [] := by
+    intro x' h0 o ho; exact Or.inl (by simpa [h0] using ho)
+  have retOuts : ∀ (x : Thread) r o, ∀ o' ∈ x.outs, o' ∈ (ret x r o).outs := by
+    intro x r o o' ho'; simp [ret_outs, ho']
   -- steps of a thread that is and stays outside the critical section and moves no counter
   have quiet : ∀ (x' : Thread) (R' : Nat) (C' : Bool), pc.inCS = false → x'.pc.inCS = false → (∀ o ∈ outs, o ∈ x'.outs) →
+      (∀ o ∈ x'.outs, o ∈ outs ∨ o.pos = []) →
       LInv s (setTh { c with R := R', Y := c.Y, C := C', P := c.P } t x') := by
-    intro x' R' C' hpc hx' hout
-    refine linv_update hf hi h t x' R' c.Y C' c.P (Nat.le_refl _) (by simpa [hx] using hout) ?_ (fun _ _ _ => rfl) ?_ (fun p h1 h2 => by omega)
+    intro x' R' C' hpc hx' hout hdel
+    refine linv_update hi h t x' R' c.Y C' c.P (Nat.le_refl _) (by simpa [hx] using hout) ?_ (fun _ _ _ => rfl) ?_ (fun p h1 h2 => by omega) ?_ (hdelSame x' hdel)
     · intro l _ _ b n hc; simp [hx'] at hc
     · intro l hl hlP _ hall
       apply h.idleNone l hl hlP
@@ -97,58 +140,77 @@ theorem step_linv {s : Script} (hf : Fused s) (hnp : NoPanic s) {c : Cfg} (hi : 
       by_cases hu : u = t
       · subst hu; simp [hx, hpc]
       · exact hall u hu
-  have retOuts : ∀ (x : Thread) r o, ∀ o' ∈ x.outs, o' ∈ (ret x r o).outs := by
-    intro x r o o' ho'; simp [ret_outs, ho']
+    · intro r b acc he
+      rcases he with he | he | he | he <;> simp [he, Pc.inCS] at hx'
   cases pc with
   | idle =>
     cases todo with
     | nil => simpa using h
     | cons r rest =>
-      cases r <;> (simp only; rw [← cfg_eta c]; exact quiet _ _ _ rfl rfl (by simp))
-  | skp => simp only; exact quiet _ _ _ rfl (ret_inCS _ _ _) (retOuts ⟨_, _, outs⟩ _ _)
-  | resv r => simp only; exact quiet _ _ _ rfl rfl (by simp)
+      cases r <;> (simp only; rw [← cfg_eta c]; exact quiet _ _ _ rfl rfl (by simp) (sameDel _ rfl))
+  | skp => simp only; exact quiet _ _ _ rfl (ret_inCS _ _ _) (retOuts ⟨_, _, outs⟩ _ _) (retDel _ _ _ rfl rfl)
+  | resv r => simp only; exact quiet _ _ _ rfl rfl (by simp) (sameDel _ rfl)
   | pre r b =>
     simp only; split
-    · rw [← cfg_eta c]; exact quiet _ _ _ rfl (ret_inCS _ _ _) (retOuts ⟨_, _, outs⟩ _ _)
-    · rw [← cfg_eta c]; exact quiet _ _ _ rfl rfl (by simp)
+    · rw [← cfg_eta c]; exact quiet _ _ _ rfl (ret_inCS _ _ _) (retOuts ⟨_, _, outs⟩ _ _) (retDel _ _ _ rfl rfl)
+    · rw [← cfg_eta c]; exact quiet _ _ _ rfl rfl (by simp) (sameDel _ rfl)
   | chk r b =>
     simp only; split
-    · rw [← cfg_eta c]; exact quiet _ _ _ rfl (ret_inCS _ _ _) (retOuts ⟨_, _, outs⟩ _ _)
-    · rw [← cfg_eta c]; exact quiet _ _ _ rfl rfl (by simp)
+    · rw [← cfg_eta c]; exact quiet _ _ _ rfl (ret_inCS _ _ _) (retOuts ⟨_, _, outs⟩ _ _) (retDel _ _ _ rfl rfl)
+    · rw [← cfg_eta c]; exact quiet _ _ _ rfl rfl (by simp) (sameDel _ rfl)
   | wait r b =>
+    simp only
+    split
+    · rw [← cfg_eta c]; exact quiet _ _ _ rfl rfl (by simp) (sameDel _ rfl)
+    · split
+      · rw [← cfg_eta c]; exact quiet _ _ _ rfl (ret_inCS _ _ _) (retOuts ⟨_, _, outs⟩ _ _) (retDel _ _ _ rfl rfl)
+      · rw [← cfg_eta c]; exact quiet _ _ _ rfl rfl (by simp) (sameDel _ rfl)
+  | ent r b =>
     have hme : (c.th t).pc.ticket = some (b, r.len) := by simp [hx, Pc.ticket]
     have htk := hi.tk t b r.len hme
     have hit : iters r b = r.len := iters_eq r b (by omega)
+    have hbY : b = c.Y := hi.entY t r b (by simp [hx])
     simp only
     split
-    · rename_i hbY
+    · rw [← cfg_eta c]; exact quiet _ _ _ rfl (ret_inCS _ _ _) (retOuts ⟨_, _, outs⟩ _ _) (retDel _ _ _ rfl rfl)
+    · rename_i hC
       rw [hit, if_neg (by omega)]
-      rw [← cfg_eta c]
       have hno := others_not_inCS hi t b r.len hme hbY
-      refine linv_update hf hi h t _ c.R c.Y c.C c.P (Nat.le_refl _) (by simp [hx]) ?_ (fun _ _ _ => rfl) (by simp [Pc.inCS]) (fun p h1 h2 => by omega)
-      intro l hl hlP b0 n0 _ hb0
-      simp [Pc.ticket] at hb0
-      obtain ⟨rfl, rfl⟩ := hb0
-      have := h.idleNone l hl hlP (by
+      have hall : ∀ u, (c.th u).pc.inCS = false := by
         intro u
         by_cases hu : u = t
         · subst hu; simp [hx, Pc.inCS]
-        · exact hno u hu)
-      simp [Pc.acc]; omega
-    · split
-      · rw [← cfg_eta c]; exact quiet _ _ _ rfl (ret_inCS _ _ _) (retOuts ⟨_, _, outs⟩ _ _)
-      · rw [← cfg_eta c]; exact quiet _ _ _ rfl rfl (by simp)
+        · exact hno u hu
+      have hnn : NoNoneBefore s c.P := by
+        by_cases hq : NoNoneBefore s c.P
+        · exact hq
+        · rcases hi.noneC hq with h1 | ⟨u, hu⟩
+          · simp [h1] at hC
+          · have : (c.th u).pc.inCS = true := by
+              generalize (c.th u).pc = q at hu; cases q <;> simp [Pc.recording, Pc.inCS] at hu ⊢
+            rw [hall u] at this; exact absurd this (by simp)
+      have hPY := hi.pidle hall hnn
+      rw [← cfg_eta c]
+      refine linv_update hi h t _ c.R c.Y c.C c.P (Nat.le_refl _) (by simp [hx]) ?_ (fun _ _ _ => rfl) (by simp [Pc.inCS]) (fun p h1 h2 => by omega) ?_ (hdelSame _ (sameDel _ rfl))
+      · intro l hl hlP b0 n0 _ hb0
+        exact absurd (hnn l hlP) hl.1
+      · intro r' b' acc' he
+        simp at he; obtain ⟨rfl, rfl, rfl⟩ := he
+        simp; rw [hbY, ← hPY]; exact hnn
   | cs r b acc =>
     have hme : (c.th t).pc.ticket = some (b, r.len) := by simp [hx, Pc.ticket]
     have hcs : (c.th t).pc.inCS = true := by simp [hx, Pc.inCS]
+    have hold := h.accNN t r b acc (by simp [hx])
     simp only
     rw [← cfg_eta c]
-    refine linv_update hf hi h t _ c.R c.Y c.C c.P (Nat.le_refl _) (by simp [hx]) ?_ (fun _ _ _ => rfl) (by simp [Pc.inCS]) (fun p h1 h2 => by omega)
-    intro l hl hlP b0 n0 _ hb0
-    simp [Pc.ticket] at hb0
-    obtain ⟨rfl, rfl⟩ := hb0
-    have := h.csNone l hl hlP t b r.len hcs hme
-    simpa [hx, Pc.acc] using this
+    refine linv_update hi h t _ c.R c.Y c.C c.P (Nat.le_refl _) (by simp [hx]) ?_ (fun _ _ _ => rfl) (by simp [Pc.inCS]) (fun p h1 h2 => by omega) ?_ (hdelSame _ (sameDel _ rfl))
+    · intro l hl hlP b0 n0 _ hb0
+      simp [Pc.ticket] at hb0
+      obtain ⟨rfl, rfl⟩ := hb0
+      have := h.csNone l hl hlP t b r.len hcs hme
+      simpa [hx, Pc.acc] using this
+    · intro r' b' acc' he
+      simp at he; obtain ⟨rfl, rfl, rfl⟩ := he; exact hold
   | ins r b acc =>
     have hme : (c.th t).pc.ticket = some (b, r.len) := by simp [hx, Pc.ticket]
     have hcs : (c.th t).pc.inCS = true := by simp [hx, Pc.inCS]
@@ -156,87 +218,75 @@ theorem step_linv {s : Script} (hf : Fused s) (hnp : NoPanic s) {c : Cfg} (hi : 
     have hbY := hi.csY t b r.len hcs hme
     have hno := others_not_inCS hi t b r.len hme hbY
     have hit : iters r b = r.len := iters_eq r b (by omega)
-    have hold := fun l hl hlP => h.csNone l hl hlP t b r.len hcs hme
-    simp [hx, Pc.acc] at hold
+    have hnn : NoNoneBefore s c.P := hi.callOk t r b acc (by simp [hx])
+    have hP : c.P = b + acc.length := by simpa [hx, Pc.acc] using hi.pcs t b r.len hcs hme hnn
     have hothP : ∀ u, u ≠ t → (c.th u).pc.inCS = true → c.P + 1 = c.P := by
       intro u hu hc; simp [hno u hu] at hc
     simp only
     rw [hit]
     cases hsp : s c.P with
     | some v =>
-      -- a first None below P+1 is below P (the call at P returned an element)
-      have hlt : ∀ l, FirstNone s l → l < c.P + 1 → l < c.P := by
-        intro l hl hlP
-        by_cases hlp : l = c.P
-        · subst hlp; exact absurd (by simp [hsp, IsSome]) hl.1
-        · omega
+      have hnn1 : NoNoneBefore s (c.P + 1) := by
+        intro i hi'
+        by_cases hip : i = c.P
+        · subst hip; simp [hsp, IsSome]
+        · exact hnn i (by omega)
+      have key : ∀ pc', (pc' = .cs r b (acc ++ [v]) ∨ pc' = .pub r b (acc ++ [v])) →
+          LInv s (setTh { c with R := c.R, Y := c.Y, C := c.C, P := c.P + 1 } t ⟨pc', todo, outs⟩) := by
+        intro pc' hpc'
+        have hin : pc'.inCS = true := by rcases hpc' with h1 | h1 <;> simp [h1, Pc.inCS]
+        refine linv_update hi h t _ c.R c.Y c.C (c.P + 1) (Nat.le_refl _) (by simp [hx]) ?_ hothP (by simp [hin]) (fun p h1 h2 => by omega) ?_ (hdelSame _ (sameDel _ rfl))
+        · intro l hl hlP b0 n0 _ hb0
+          exact absurd (hnn1 l hlP) hl.1
+        · intro r' b' acc' he
+          have : b' = b ∧ acc' = acc ++ [v] := by
+            rcases hpc' with h1 | h1 <;> (rw [h1] at he; simp at he) <;> (obtain ⟨_, rfl, rfl⟩ := he; exact ⟨rfl, rfl⟩)
+          obtain ⟨rfl, rfl⟩ := this
+          have : b' + (acc ++ [v]).length = c.P + 1 := by simp; omega
+          rw [this]; exact hnn1
       simp only
       split
-      · refine linv_update hf hi h t _ c.R c.Y c.C (c.P + 1) (Nat.le_refl _) (by simp [hx]) ?_ hothP (by simp [Pc.inCS]) (fun p h1 h2 => by omega)
-        intro l hl hlP b0 n0 _ hb0
-        simp [Pc.ticket] at hb0
-        obtain ⟨rfl, rfl⟩ := hb0
-        have := hold l hl (hlt l hl hlP)
-        simp [Pc.acc]; omega
-      · refine linv_update hf hi h t _ c.R c.Y c.C (c.P + 1) (Nat.le_refl _) (by simp [hx]) ?_ hothP (by simp [Pc.inCS]) (fun p h1 h2 => by omega)
-        intro l hl hlP b0 n0 _ hb0
-        simp [Pc.ticket] at hb0
-        obtain ⟨rfl, rfl⟩ := hb0
-        have := hold l hl (hlt l hl hlP)
-        simp [Pc.acc]; omega
+      · rw [if_neg (by simp at *; omega)]; exact key _ (Or.inr rfl)
+      · exact key _ (Or.inl rfl)
     | none =>
-      -- either the first None is this call (then P = b + |acc| by `pcs`) or it was observed before
-      have hnew : ∀ l, FirstNone s l → l < c.P + 1 → l ≤ b + acc.length := by
-        intro l hl hlP
-        by_cases hlp : l = c.P
-        · subst hlp
-          have := hi.pcs t b r.len hcs hme hl.2
-          simp [hx, Pc.acc] at this; omega
-        · exact hold l hl (by omega)
-      have hacc := (hi.accOk t b r.len hme)
-      simp [hx, Pc.acc] at hacc
+      have hfirst : FirstNone s c.P := ⟨by simp [hsp, IsSome], hnn⟩
       simp only
-      split
-      · -- single: acc = [] by the ticket length 1 > |acc|
-        have hlt := hi.csLt t r b acc (by simp [hx])
-        rename_i hsingle
-        have hlen : r.len = 1 := single_len hsingle
-        refine linv_update hf hi h t _ c.R c.Y c.C (c.P + 1) (Nat.le_refl _) (by simp [hx]) ?_ hothP (by simp [Pc.inCS]) (fun p h1 h2 => by omega)
-        intro l hl hlP b0 n0 _ hb0
+      refine linv_update hi h t _ c.R c.Y c.C (c.P + 1) (Nat.le_refl _) (by simp [hx]) ?_ hothP (by simp [Pc.inCS]) (fun p h1 h2 => by omega) ?_ (hdelSame _ (sameDel _ rfl))
+      · intro l hl hlP b0 n0 _ hb0
         simp [Pc.ticket] at hb0
         obtain ⟨rfl, rfl⟩ := hb0
-        have := hnew l hl hlP
+        have := firstNone_unique hl hfirst
         simp [Pc.acc]; omega
-      · split
-        · rename_i hch
-          refine linv_update hf hi h t _ c.R c.Y c.C (c.P + 1) (Nat.le_refl _) (by simp [hx]) ?_ hothP (by simp [Pc.inCS]) (fun p h1 h2 => by omega)
-          intro l hl hlP b0 n0 _ hb0
-          simp [Pc.ticket] at hb0
-          obtain ⟨rfl, rfl⟩ := hb0
-          have := hnew l hl hlP
-          simp [Pc.acc, hch.2] at this ⊢; omega
-        · refine linv_update hf hi h t _ c.R c.Y c.C (c.P + 1) (Nat.le_refl _) (by simp [hx]) ?_ hothP (by simp [Pc.inCS]) (fun p h1 h2 => by omega)
-          intro l hl hlP b0 n0 _ hb0
-          simp [Pc.ticket] at hb0
-          obtain ⟨rfl, rfl⟩ := hb0
-          simpa [Pc.acc] using hnew l hl hlP
+      · intro r' b' acc' he
+        simp at he; obtain ⟨_, rfl, rfl⟩ := he
+        rw [← hP]; exact hnn
     | panic => exact absurd hsp (hnp c.P)
-  | setC r b =>
+  | setC r b acc =>
     have hme : (c.th t).pc.ticket = some (b, r.len) := by simp [hx, Pc.ticket]
     have hcs : (c.th t).pc.inCS = true := by simp [hx, Pc.inCS]
     have hbY := hi.csY t b r.len hcs hme
     have hold := fun l hl hlP => h.csNone l hl hlP t b r.len hcs hme
     simp [hx, Pc.acc] at hold
+    have haccNN := h.accNN t r b acc (by simp [hx])
+    have hacc := (hi.accOk t b r.len hme).2
+    simp [hx, Pc.acc] at hacc
     simp only
     split
-    · refine linv_update hf hi h t _ c.R c.Y true c.P (Nat.le_refl _) (by intro o ho; simp [hx] at ho; simp [ret_outs, ho]) ?_ (fun _ _ _ => rfl) ?_ (fun p h1 h2 => by omega)
+    · rename_i hsingle
+      have hlen : r.len = 1 := single_len hsingle
+      refine linv_update hi h t _ c.R c.Y true c.P (Nat.le_refl _) (by intro o ho; simp [hx] at ho; simp [ret_outs, ho]) ?_ (fun _ _ _ => rfl) ?_ (fun p h1 h2 => by omega) (retAcc _ _ _) (hdelSame _ (retDel _ _ _ rfl rfl))
       · intro l _ _ b0 n0 hc; simp [ret_inCS] at hc
-      · intro l hl hlP _ _; have := hold l hl hlP; omega
-    · refine linv_update hf hi h t _ c.R c.Y true c.P (Nat.le_refl _) (by simp [hx]) ?_ (fun _ _ _ => rfl) (by simp [Pc.inCS]) (fun p h1 h2 => by omega)
-      intro l hl hlP b0 n0 _ hb0
-      simp [Pc.ticket] at hb0
-      obtain ⟨rfl, rfl⟩ := hb0
-      simpa [Pc.acc] using hold l hl hlP
+      · intro l hl hlP _ _
+        have := hold l hl hlP
+        have hlt := hi.csLt t r b acc (by simp [hx])
+        omega
+    · refine linv_update hi h t _ c.R c.Y true c.P (Nat.le_refl _) (by simp [hx]) ?_ (fun _ _ _ => rfl) (by simp [Pc.inCS]) (fun p h1 h2 => by omega) ?_ (hdelSame _ (sameDel _ rfl))
+      · intro l hl hlP b0 n0 _ hb0
+        simp [Pc.ticket] at hb0
+        obtain ⟨rfl, rfl⟩ := hb0
+        simpa [Pc.acc] using hold l hl hlP
+      · intro r' b' acc' he
+        simp at he; obtain ⟨_, rfl, rfl⟩ := he; exact haccNN
   | pub r b acc =>
     have hme : (c.th t).pc.ticket = some (b, r.len) := by simp [hx, Pc.ticket]
     have hcs : (c.th t).pc.inCS = true := by simp [hx, Pc.inCS]
@@ -247,53 +297,57 @@ theorem step_linv {s : Script} (hf : Fused s) (hnp : NoPanic s) {c : Cfg} (hi : 
     have hold := fun l hl hlP => h.csNone l hl hlP t b r.len hcs hme
     simp [hx, Pc.acc] at hold
     have hfull := hi.pubFull t r b acc (by simp [hx])
-    -- positions of the ticket beyond what was accumulated are not filled
-    have hbeyond : ∀ p, b + acc.length ≤ p → p < b + r.len → ¬ IsSome (s p) := by
-      intro p hp1 hp2 hsome
+    have haccNN := h.accNN t r b acc (by simp [hx])
+    -- positions of the ticket beyond what was accumulated were not filled before the end
+    have hbeyond : ∀ p, b + acc.length ≤ p → p < b + r.len → ¬ NoNoneBefore s (p + 1) := by
+      intro p hp1 hp2 hfill
       by_cases hnn : NoNoneBefore s c.P
       · have := hfull hnn; omega
       · obtain ⟨l, hlP, hl⟩ := exists_firstNone s c.P hnn
         have := hold l hl hlP
-        exact hl.1 (hf l p (by omega) hsome)
-    have key : ∀ o, (∀ p, b ≤ p → p < b + acc.length → p ∈ o.pos) →
+        exact hl.1 (hfill l (by omega))
+    have key : ∀ o, (∀ p, b ≤ p → p < b + acc.length → p ∈ o.pos) → (∀ p ∈ o.pos, b ≤ p ∧ p < b + acc.length) →
         LInv s (setTh { c with R := c.R, Y := c.Y + r.len, C := c.C, P := c.P } t (ret ⟨Pc.pub r b acc, todo, outs⟩ r o)) := by
-      intro o ho
-      refine linv_update hf hi h t _ c.R (c.Y + r.len) c.C c.P (by omega) (by intro o ho; simp [hx] at ho; simp [ret_outs, ho]) ?_ (fun _ _ _ => rfl) ?_ ?_
+      intro o ho ho2
+      refine linv_update hi h t _ c.R (c.Y + r.len) c.C c.P (by omega) (by intro o ho; simp [hx] at ho; simp [ret_outs, ho]) ?_ (fun _ _ _ => rfl) ?_ ?_ (retAcc _ _ _) ?_
       · intro l _ _ b0 n0 hc; simp [ret_inCS] at hc
       · intro l hl hlP _ _; have := hold l hl hlP; omega
-      · intro p h1 h2 hsome
+      · intro p h1 h2 hfill
         refine ⟨o, by simp [ret_outs], ho p (by omega) ?_⟩
         by_cases hlt : p < b + acc.length
         · exact hlt
-        · exact absurd hsome (hbeyond p (by omega) (by omega))
+        · exact absurd hfill (hbeyond p (by omega) (by omega))
+      · intro o' ho'
+        simp [ret_outs] at ho'
+        rcases ho' with h1 | h1
+        · exact Or.inl (by simpa [hx] using h1)
+        · refine Or.inr ?_
+          subst h1
+          intro p hp
+          have := ho2 p hp
+          exact nnb_le (by omega) haccNN
     simp only
     cases acc with
-    | nil => simp only; exact key _ (by intro p h1 h2; simp at h2; omega)
+    | nil => simp only; exact key _ (by intro p h1 h2; simp at h2; omega) (by simp [POut.pos])
     | cons v rest =>
       simp only
       split
       · rename_i hsingle
         have hlen : r.len = 1 := single_len hsingle
         apply key
-        intro p h1 h2
-        have := hacc.2; simp at this h2
-        simp [POut.pos]; omega
+        · intro p h1 h2
+          have := hacc.2; simp at this h2
+          simp [POut.pos]; omega
+        · intro p hp; simp [POut.pos] at hp; subst hp; simp
       · apply key
-        intro p h1 h2
-        simp only [List.length_cons] at h2
-        simp only [POut.pos, List.length_cons, List.mem_range'_1]
-        omega
-  | unw b n =>
-    have hme : (c.th t).pc.ticket = some (b, n) := by simp [hx, Pc.ticket]
-    have hcs : (c.th t).pc.inCS = true := by simp [hx, Pc.inCS]
-    have hold := fun l hl hlP => h.csNone l hl hlP t b n hcs hme
-    simp [hx, Pc.acc] at hold
-    simp only
-    refine linv_update hf hi h t _ c.R c.Y true c.P (Nat.le_refl _) (by simp [hx]) ?_ (fun _ _ _ => rfl) (by simp [Pc.inCS]) (fun p h1 h2 => by omega)
-    intro l hl hlP b0 n0 _ hb0
-    simp [Pc.ticket] at hb0
-    obtain ⟨rfl, rfl⟩ := hb0
-    simpa [Pc.acc] using hold l hl hlP
+        · intro p h1 h2
+          simp only [List.length_cons] at h2
+          simp only [POut.pos, List.length_cons, List.mem_range'_1]
+          omega
+        · intro p hp
+          simp only [POut.pos, List.length_cons, List.mem_range'_1] at hp
+          simp only [List.length_cons]; omega
+  | unw b n => exact absurd (by simp [hx]) (hnd t b n)
   | dead b n => simpa using h
 
 theorem linv_init (s : Script) (ps : Nat → List Req) : LInv s (init ps) := by
@@ -301,16 +355,8 @@ theorem linv_init (s : Script) (ps : Nat → List Req) : LInv s (init ps) := by
   · intro l _ hl; simp [init] at hl
   · intro l _ hl; simp [init] at hl
   · intro p hp; simp [init] at hp
-
-theorem linv_run {s : Script} (hf : Fused s) (hnp : NoPanic s) (σ : List Nat) {c : Cfg} (hi : Inv s c) (h : LInv s c)
-    (hW : (run s σ c).R < W) : LInv s (run s σ c) := by
-  induction σ generalizing c with
-  | nil => simpa [run]
-  | cons t ts ih =>
-    simp only [run] at hW ⊢
-    have h1 : (step s t c).R < W := Nat.lt_of_le_of_lt (run_R_mono s ts _) hW
-    have h0 : c.R < W := Nat.lt_of_le_of_lt (step_R_mono s t c) h1
-    exact ih (step_inv hf hi h0 t) (step_linv hf hnp hi h h0 t) hW
+  · intro t r b acc he; simp [init] at he
+  · rintro p ⟨t, o, ho, _⟩; simp [init] at ho
 
 end Orx.IW
 
@@ -336,10 +382,10 @@ theorem step_nd {s : Script} (hnp : NoPanic s) {c : Cfg} (h : ND c) (t : Nat) : 
     | ins r b' acc =>
       simp only
       cases hsp : s c.P with
-      | some v => simp only; split <;> simp [setTh]
-      | none => simp only; split
-                · simp [setTh]
-                · split <;> simp [setTh]
+      | some v => simp only; split
+                  · split <;> simp [setTh]
+                  · simp [setTh]
+      | none => simp [setTh]
       | panic => exact absurd hsp (hnp c.P)
     | unw b' n' => exact absurd rfl (h0 b' n').1
     | dead b' n' => exact absurd rfl (h0 b' n').2
@@ -425,10 +471,14 @@ theorem step_finv {s : Script} {c : Cfg} (hi : Inv s c) (hnd : ND c) (h : FInv s
     have hme : (c.th t).pc.ticket = some (b, r.len) := by simp [hx, Pc.ticket]
     have htk := hi.tk t b r.len hme
     simp only; split
-    · split <;> (rw [← cfg_eta c]; exact same _ _ _ htd (by simp) rfl)
+    · rw [← cfg_eta c]; exact same _ _ _ htd (by simp) rfl
     · split
       · omega
       · rw [← cfg_eta c]; exact same _ _ _ htd (by simp) rfl
+  | ent r b =>
+    simp only; split
+    · rename_i hc; rw [← cfg_eta c]; exact finC _ r rfl rfl hc
+    · split <;> (rw [← cfg_eta c]; exact same _ _ _ htd (by simp) rfl)
   | cs r b acc => simp only; rw [← cfg_eta c]; exact same _ _ _ htd (by simp) rfl
   | ins r b acc =>
     simp only
@@ -437,16 +487,16 @@ theorem step_finv {s : Script} {c : Cfg} (hi : Inv s c) (hnd : ND c) (h : FInv s
       intro x' h1 h2 h3
       exact finv_update h t x' c.R c.Y c.C (c.P + 1) (by omega) h1 h2 (fun hc => Or.inl hc) (fun hf => Or.inl (by simpa [hx, h3] using hf))
     cases s c.P with
-    | some v => simp only; split <;> exact upd _ htd (by simp) rfl
-    | none => simp only; split
-              · exact upd _ htd (by simp) rfl
-              · split <;> exact upd _ htd (by simp) rfl
+    | some v => simp only; split
+                · split <;> exact upd _ htd (by simp) rfl
+                · exact upd _ htd (by simp) rfl
+    | none => simp only; exact upd _ htd (by simp) rfl
     | panic => simp only; exact upd _ htd (by simp) rfl
-  | setC r b =>
-    have hnone := hi.setCNone t r b (by simp [hx])
+  | setC r b acc =>
+    have hnone := hi.setCNone t r b acc (by simp [hx])
     simp only; split
     · refine finv_update h t _ c.R c.Y true c.P (Nat.le_refl _) (by simpa [ret_todo] using htd) ?_ (fun _ => Or.inr hnone) (fun _ => Or.inr hnone)
-      rcases ret_pc ⟨Pc.setC r b, todo, outs⟩ r .fin with h | h <;> simp [h]
+      rcases ret_pc ⟨Pc.setC r b acc, todo, outs⟩ r .fin with h | h <;> simp [h]
     · exact finv_update h t _ c.R c.Y true c.P (Nat.le_refl _) htd (by simp) (fun _ => Or.inr hnone) (fun hf => Or.inl (by simpa [hx] using hf))
   | pub r b acc =>
     have hme : (c.th t).pc.ticket = some (b, r.len) := by simp [hx, Pc.ticket]
@@ -480,7 +530,7 @@ theorem finv_init (s : Script) (ps : Nat → List Req) (hns : ∀ t, ∀ r ∈ p
   · simp [init]
 
 /-- all four invariants along any schedule -/
-theorem all_inv_run {s : Script} (hf : Fused s) (hnp : NoPanic s) (σ : List Nat) {c : Cfg}
+theorem all_inv_run {s : Script} (hnp : NoPanic s) (σ : List Nat) {c : Cfg}
     (hi : Inv s c) (ho : OInv s c) (hl : LInv s c) (hfi : FInv s c) (hnd : ND c) (hW : (run s σ c).R < W) :
     Inv s (run s σ c) ∧ OInv s (run s σ c) ∧ LInv s (run s σ c) ∧ FInv s (run s σ c) := by
   induction σ generalizing c with
@@ -489,33 +539,25 @@ theorem all_inv_run {s : Script} (hf : Fused s) (hnp : NoPanic s) (σ : List Nat
     simp only [run] at hW ⊢
     have h1 : (step s t c).R < W := Nat.lt_of_le_of_lt (run_R_mono s ts _) hW
     have h0 : c.R < W := Nat.lt_of_le_of_lt (step_R_mono s t c) h1
-    exact ih (step_inv hf hi h0 t) (step_oinv hi ho t) (step_linv hf hnp hi hl h0 t) (step_finv hi hnd hfi t) (step_nd hnp hnd t) hW
+    exact ih (step_inv hi h0 t) (step_oinv hi ho t) (step_linv hnp hi hl h0 (fun t b n => (hnd t b n).1) t)
+      (step_finv hi hnd hfi t) (step_nd hnp hnd t) hW
 
-/-- **Exactly once, wrapper over an arbitrary iterator.** For every fused, non-panicking wrapped iterator `s`,
-every family of per-thread request lists (single pulls, one-shot chunks, buffered chunks, loops; chunk sizes ≥ 1;
-no skip) and every interleaving `σ` (reserved count below `2^64`): if no thread is inside the critical section
-and some thread has observed the end, then the positions handed out are exactly the positions the wrapped
-iterator filled: a position is delivered iff `s p` is an element. (No duplicates: `OInv.sorted`, `OInv.disj`.) -/
-theorem exactly_once (s : Script) (hf : Fused s) (hnp : NoPanic s) (ps : Nat → List Req)
+/-- **Exactly once, wrapper over an arbitrary iterator — fused or not.** For every non-panicking wrapped
+iterator `s` (it may yield again after a `None`: the protocol never polls it again), every family of per-thread
+request lists (single pulls, one-shot chunks, buffered chunks, loops; chunk sizes ≥ 1; no skip) and every
+interleaving `σ` (reserved count below `2^64`): if no thread is inside the critical section and some thread has
+observed the end, then a position has been handed out iff the wrapped iterator filled it before it ended, i.e.
+iff all calls up to and including that position returned elements. (No duplicates: `OInv.sorted`, `OInv.disj`.) -/
+theorem exactly_once (s : Script) (hnp : NoPanic s) (ps : Nat → List Req)
     (hok : ∀ t, ∀ r ∈ ps t, ReqOk r) (hns : ∀ t, ∀ r ∈ ps t, r ≠ .skip) (σ : List Nat)
     (hW : (run s σ (init ps)).R < W)
     (hquiet : ∀ t, ((run s σ (init ps)).th t).pc.inCS = false)
     (hend : ∃ t, POut.fin ∈ ((run s σ (init ps)).th t).outs) (p : Nat) :
-    Delivered (run s σ (init ps)) p ↔ IsSome (s p) := by
-  obtain ⟨hi, ho, hl, hfi⟩ := all_inv_run hf hnp σ (inv_init s ps hok) (oinv_init s ps) (linv_init s ps) (finv_init s ps hns) (by intro t b n; simp [init]) hW
+    Delivered (run s σ (init ps)) p ↔ NoNoneBefore s (p + 1) := by
+  obtain ⟨hi, ho, hl, hfi⟩ := all_inv_run hnp σ (inv_init s ps hok) (oinv_init s ps) (linv_init s ps) (finv_init s ps hns) (by intro t b n; simp [init]) hW
   constructor
-  · rintro ⟨t, o, hot, hp⟩
-    have hg := ho.good t o hot
-    cases o with
-    | item b v => simp [POut.pos] at hp; subst hp; simp [GoodOut] at hg; simp [hg, IsSome]
-    | chunk b vals =>
-      simp only [POut.pos, List.mem_range'_1] at hp
-      have := hg.2 (p - b) (by omega)
-      have hpb : b + (p - b) = p := by omega
-      rw [hpb] at this; simp [this, IsSome]
-    | fin => simp [POut.pos] at hp
-    | unit => simp [POut.pos] at hp
-  · intro hsome
+  · exact hl.delOk p
+  · intro hfill
     obtain ⟨t, hfin⟩ := hend
     have hnn := hfi.finNone t hfin
     obtain ⟨l, hlP, hl1⟩ := exists_firstNone s _ hnn
@@ -523,7 +565,13 @@ theorem exactly_once (s : Script) (hf : Fused s) (hnp : NoPanic s) (ps : Nat →
     have hpl : p < l := by
       rcases Nat.lt_or_ge p l with h | h
       · exact h
-      · exact absurd (hf l p h hsome) hl1.1
-    exact hl.noLoss p (by omega) hsome
+      · exact absurd (hfill l (by omega)) hl1.1
+    exact hl.noLoss p (by omega) hfill
+
+/-- for a fused iterator "filled before the end" is just "is an element" -/
+theorem filled_iff_isSome {s : Script} (hf : Fused s) (p : Nat) : NoNoneBefore s (p + 1) ↔ IsSome (s p) := by
+  constructor
+  · intro h; exact h p (by omega)
+  · intro h i hi; exact hf i p (by omega) h
 
 end Orx.IW
